@@ -87,7 +87,7 @@ def requirements(tier):
         "steps-recomputed:dopri54": 3000, "order-observed:euler": 60, "order-observed:rk4": 20,
         "adaptive-accepted-steps-checked": 5000, "adaptive:target-within-8-steps": 20, "adaptive-reduced-steps": 100, "adaptive-global-checked": 60,
         "energy-drift-order:euler": 60, "energy-drift-order:rk4": 60, "drift-adaptive-checked": 60,
-        "leap:judged": 20, "leap:label:TAI": 4, "leap:label:TT": 4, "leap:label:UTC": 8, "api:pairs-compared": 300, "api:reconfigured-instance": 30, "api:vs-truth": 150, "api:backward-propagate": 20, "api:forward-propagate": 50,
+        "leap:judged": 20, "leap:label:TAI": 4, "leap:label:TT": 4, "leap:label:UTC": 8, "api:pairs-compared": 300, "api:reconfigured-instance": 30, "api:target-just-short-of-a-node": 15, "api:same-target-other-state": 30, "api:vs-truth": 150, "api:backward-propagate": 20, "api:forward-propagate": 50,
         "api:iter": 100, "api:ephem": 50, "api:arg:Date": 30, "api:arg:timedelta": 30,
         "direction:forward": 50, "direction:backward": 50, "stage-dates-recorded": 1000,
     }
@@ -806,6 +806,70 @@ def case_api(ctx, job, idx, rng, st, o, date0):
             chains = split_chains(log2)
             ts, ys = chain_nodes(chains[0])
             api_vs_truth(ctx, st, W2, y0, 0, ts, ys, us(t2), probe.arr(res2), m2, "propagate")
+
+    # ---- a target a fraction of a millisecond short of an integration node (neither on the grid nor far from it): the
+    # state is the interpolated one, not the node re-dated
+    if idx % 4 == 1 and not short:
+        mN = method if method != "euler" else "rk4"
+        kN = rng.randint(9, 40)
+        delta = rng.choice([60, 150, 400, 800, 950]) * 1e-6
+        sg = -1 if backward else 1
+        tN = sg * (kN * h - delta)
+        WN = dict(W, history=None, method=mN, target_s=tN, short_of_node_s=delta, request="propagate to a date just short of an integration node")
+        orbN = make_orbit(o, date0, h, mN, tol if mN == method else None, rng, st)
+        try:
+            resN, logN = run_logged(st, lambda: orbN.propagate(td(tN) if argtype == "timedelta" else date0 + td(tN)))
+        except Exception as exc:
+            ctx.violation("C06/propagate-raises", dict(WN, exc=repr(exc)), f"propagate raised {exc!r}")
+            logN = None
+        if logN:
+            ctx.count("api:target-just-short-of-a-node")
+            chains = split_chains(logN)
+            ts, ys = chain_nodes(chains[0])
+            ddN = abs((resN.date - date0).total_seconds() - tN)
+            ctx.expect(ddN <= 1.5e-6, "C06/result-not-dated-at-the-target", dict(WN, date=str(resN.date)), f"result dated {resN.date}, asked {tN} s after {date0}")
+            api_vs_truth(ctx, st, WN, y0, 0, ts, ys, us(tN), probe.arr(resN), mN, "propagate")
+
+    # ---- history: the same propagator object, the same epoch, the same target date -- and another initial state (the orbit
+    # edited in place between two calls, or a second orbit handed to the same propagator object)
+    if idx % 2 == 1:
+        from beyond.orbits import Orbit
+
+        mode = ("orbit-edited-in-place", "second-orbit-same-propagator-object")[(idx // 2) % 2]
+        y0b = y0.copy()
+        y0b[3:] *= 1 + rng.choice((-1, 1)) * rng.uniform(2e-4, 2e-3)
+        WS = dict(W, history=f"propagate(target), then {mode} (velocity scaled), then propagate(target) again", second_state=y0b.tolist())
+        orbS = make_orbit(o, date0, h, method, tol, rng, st)
+        try:
+            _r1, log1 = run_logged(st, lambda: orbS.propagate(arg))
+            if mode == "orbit-edited-in-place":
+                orbS[3:] = y0b[3:]
+                second = orbS
+            else:
+                second = Orbit(y0b, date0, "cartesian", "EME2000", orbS.propagator)
+            resS, logS = run_logged(st, lambda: second.propagate(arg))
+        except Exception as exc:
+            ctx.violation("C06/propagate-raises-after-state-change", dict(WS, exc=repr(exc)), f"{mode}: propagate raised {exc!r}")
+            log1 = None
+        if log1:
+            ctx.count("api:same-target-other-state")
+            ctx.count("api:same-target-other-state:" + mode)
+            outS = probe.arr(resS)
+            if logS:
+                chains = split_chains(logS)
+                initial_state_check(ctx, chains, y0b, WS)
+                ts, ys = chain_nodes(chains[0])
+                api_vs_truth(ctx, st, WS, y0b, 0, ts, ys, us(t), outS, method, "propagate-after-state-change")
+            else:
+                # nothing was integrated for the second request: judged against the truth with the allowance of the first chain
+                ts, ys = chain_nodes(split_chains(log1)[0])
+                al = interpolation_allowance(st, y0, 0, ts, ys, us(t), method in rk_ref.ADAPTIVE)
+                rtb, vtb, *_ = tb.propagate_uv(y0b[:3], y0b[3:], t, mu)
+                dpS = norm(outS[:3] - rtb)
+                if al is not None:
+                    ctx.resid("api:same-target-other-state:no-integration:pos", dpS, 4 * al[0] + 1e-3, key="C06/state-of-an-earlier-request-returned-for-another-initial-state",
+                              witness=dict(WS, result=outS.tolist(), truth_r=rtb.tolist()),
+                              msg=f"{mode}: no integration step was taken for the second request and its result is {dpS!r} m from the two-body solution of the second state")
 
     # ---- pairwise: the state returned for that date does not depend on the request pattern ----------
     names = sorted(results)
